@@ -359,7 +359,9 @@ def rule_orderins(ctx):
             for x in tm.walk(c):
                 if x.op == "loopvar":
                     carried.add(x.a[1])
-    muts = sorted({m.root or "?" for m in s.by_kind("mutate") if m.how != "aug" and any(x[0] == "loop" for x in m.pc)})
+    # state that is written in the loop matters only if a decision reads it back (then it is in `carried`); a list that
+    # merely collects the per-pattern verdicts is not a decision input
+    muts = sorted({m.root or "?" for m in s.by_kind("mutate") if m.how != "aug" and any(x[0] == "loop" for x in m.pc) and (m.root in carried or m.root is None)})
     yield ob(R, f, "pattern.standard_FPR:no-loop-carried-decision", not carried and not muts, "whether a reference pattern is found depends only on that pattern and the set of estimated patterns" if not carried and not muts else "the match decision reads state carried over from earlier iterations (%s): the count depends on the order of the pattern lists" % ", ".join(sorted(carried | set(muts))))
     # pattern: every reference pattern is visited and the per-pattern results are reduced symmetrically
     for q in ("pattern.establishment_FPR", "pattern.occurrence_FPR"):
